@@ -2254,7 +2254,7 @@ def _kwargs_understood(name, kwargs):
             continue
         if k == "order" and is_rat(v) and str_of(v) == "C":
             continue
-        if k == "key" and name in ("sorted",):
+        if k in ("key", "reverse") and name in ("sorted", ".sort"):
             continue
         if name in ("dict", "types.SimpleNamespace", "SimpleNamespace", "functools.partial"):
             continue
@@ -2712,13 +2712,49 @@ def L_reversed(ip, args, kwargs, node):
     return tuple(reversed(ip.iterate(args[0], node)))
 
 
+def _order_key(v):
+    """a Python value that orders like `v` orders in Python: constants by value, strings by text, tuples / lists lexicographically; None when
+    the order is not known (a symbolic entry)"""
+    if isinstance(v, Arr) and v.size == 1:
+        v = v.flat()[0]
+    if isinstance(v, (tuple, LVal)):
+        ks = [_order_key(x) for x in (v if isinstance(v, tuple) else v.items)]
+        return None if any(k is None for k in ks) else tuple(ks)
+    if not is_rat(v):
+        return None
+    c = G.const_of(v)
+    if c is not None:
+        return (0, c)
+    b = G.fold_bool(v)
+    if b is not None and is_boolish(v):
+        return (0, Fraction(int(b)))
+    t = str_of(v)
+    return None if t is None else (1, t)
+
+
+def _sorted_items(ip, items, kwargs, node):
+    """the items in sorted order (stable; `key=` is called, `reverse=` honoured), or None when the order of two of them is not known"""
+    keyf = kwargs.get("key")
+    if keyf is not None and not (is_rat(keyf) and G.same(keyf, NONE)):
+        keys = [_order_key(ip.call(keyf, [x], {}, node)) for x in items]
+    else:
+        keys = [_order_key(x) for x in items]
+    if any(k is None for k in keys):
+        return None
+    rev = kwargs.get("reverse")
+    rev = False if rev is None else G.fold_bool(rev)
+    if rev is None:
+        return None
+    try:
+        order = sorted(range(len(items)), key=lambda k: keys[k], reverse=bool(rev))
+    except TypeError:
+        raise PyError("TypeError", "'<' not supported between the items that are sorted")
+    return [items[k] for k in order]
+
+
 def L_sorted(ip, args, kwargs, node):
-    items = ip.iterate(args[0], node)
-    cs = [G.const_of(v) if is_rat(v) else None for v in items]
-    if any(c is None for c in cs) or "key" in kwargs:
-        return NotImplemented
-    rev = "reverse" in kwargs and G.fold_bool(kwargs["reverse"])
-    return LVal([F.const(c) for c in sorted(cs, reverse=bool(rev))])
+    r = _sorted_items(ip, ip.iterate(args[0], node), kwargs, node)
+    return NotImplemented if r is None else LVal(r)
 
 
 def L_map(ip, args, kwargs, node):
@@ -3271,6 +3307,14 @@ def M_lcopy(ip, obj, args, kwargs, node):
     return LVal(obj.items)
 
 
+def M_sort(ip, obj, args, kwargs, node):
+    r = _sorted_items(ip, list(obj.items), kwargs, node)
+    if r is None:
+        raise Unsupported("list.sort() of items whose order is not known")
+    obj.items[:] = r
+    return NONE
+
+
 def M_reverse(ip, obj, args, kwargs, node):
     obj.items.reverse()
     return NONE
@@ -3369,7 +3413,7 @@ METHODS = {
     Arr: {"any": M_any, "all": M_all, "sum": M_sum, "reshape": M_reshape, "transpose": M_transpose, "copy": M_copyarr, "astype": M_copyarr,
           "to_numpy": M_self, "squeeze": M_self, "view": M_self, "__array__": M_self, "ravel": M_ravel, "flatten": M_flatten,
           "tolist": M_tolist, "fill": M_fill, "dot": M_dot, "item": M_item, "nonzero": M_nonzero, "max": M_max, "min": M_min},
-    LVal: {"append": M_append, "extend": M_extend, "insert": M_insert, "pop": M_pop, "copy": M_lcopy, "reverse": M_reverse, "index": M_index},
+    LVal: {"append": M_append, "extend": M_extend, "insert": M_insert, "pop": M_pop, "copy": M_lcopy, "reverse": M_reverse, "index": M_index, "sort": M_sort},
     tuple: {"index": M_index},
     DVal: {"get": M_dget, "items": M_ditems, "keys": M_dkeys, "values": M_dvalues, "setdefault": M_dsetdefault, "update": M_dupdate},
     IndexVal: {"get_level_values": M_level, "get_loc": M_get_loc},
@@ -3396,9 +3440,10 @@ class Run:
         return feasible(self.assumed)
 
 
-def explore(ctx, rel, fn, args=None, truth=None, hook=None, stops=(), inline_public=(), presets=None, max_paths=96):
+def explore(ctx, rel, fn, args=None, truth=None, hook=None, stops=(), inline_public=(), presets=None, max_paths=96, positional=None):
     """one Run per regime of `fn` (a FunctionDef of `rel`) called with the keyword arguments `args` (parameters that are not given take their
-    default, or the symbol of their name)"""
+    default, or the symbol of their name).  `positional`: values for the leading parameters by *position* - the way to enter a private helper,
+    whose parameter names are nobody's interface"""
     done = []
     stack = [dict(presets or {})]
     n = 0
@@ -3414,6 +3459,11 @@ def explore(ctx, rel, fn, args=None, truth=None, hook=None, stops=(), inline_pub
         nd = len(f.defaults)
         pos = [x.arg for x in a.posonlyargs + a.args]
         kw = dict(args or {})
+        if positional:
+            if len(positional) > len(pos):
+                raise Unsupported(f"{fn.name} takes {len(pos)} positional parameters, {len(positional)} are needed")
+            for p, v in zip(pos, positional):
+                kw[p] = v
         for k, p in enumerate(pos):
             if p not in kw and k - (len(pos) - nd) < 0:
                 kw[p] = F.sym(p)
